@@ -5,6 +5,9 @@ import Proofs.C12.Part
 import Proofs.C12.Total
 import Proofs.C12.PartSuper
 import Proofs.C12.Toggle
+import Proofs.C12.PartHistory
+import Proofs.C12.PartTotal
+import Proofs.C12.Tokenless
 /-!
 # C12 — statements used by `Props/C12.lean` (whole-shard level)
 
